@@ -38,6 +38,10 @@ def main() -> int:
     os.environ.setdefault("GEMSEO_VERIF", "1")
     logging.disable(logging.CRITICAL)
     warnings.filterwarnings("ignore")
+    import faulthandler
+    import signal
+
+    faulthandler.register(signal.SIGUSR1, all_threads=True)  # kill -USR1 <pid> dumps the stacks (inherited by workers)
 
     from mc import evidence, findings
     from mc.core import Ctx
@@ -93,5 +97,32 @@ def main() -> int:
     return 1 if unlisted else 0
 
 
+def _reap_group() -> None:
+    """Kill whatever is left in our process group (orphaned managers / workers of an abandoned case)."""
+    import signal
+
+    me, pg = os.getpid(), os.getpgrp()
+    if pg != me:
+        return
+    for d in os.listdir("/proc"):
+        if d.isdigit() and int(d) != me:
+            try:
+                if os.getpgid(int(d)) == pg:
+                    os.kill(int(d), signal.SIGKILL)
+            except OSError:
+                pass
+
+
 if __name__ == "__main__":
-    sys.exit(main())
+    try:
+        os.setpgrp()
+    except OSError:
+        pass
+    code = 1
+    try:
+        code = main()
+    finally:
+        sys.stdout.flush()
+        sys.stderr.flush()
+        _reap_group()
+    sys.exit(code)
